@@ -201,9 +201,14 @@ func (e *Exec) execInstr(f *Frame, b *ssa.BasicBlock, ins ssa.Instruction, st *S
 		// argument values are evaluated now; they are SSA values, so evaluation at RunDefers is equivalent
 		f.defers = append(f.defers, deferInfo{reach: reach, call: x})
 	case *ssa.Go:
-		e.note("goroutine started in " + f.fn.Name() + ": body not interleaved (abstracted)")
-		e.abstracted[f.fn.String()] = true
-		e.execGo(f, b, x, st, reach)
+		if isForkJoin(x) {
+			e.note("goroutine in " + f.fn.Name() + " joined by a WaitGroup: body executed as a call (fork/join), not interleaved")
+			e.abstracted[f.fn.String()] = true
+			e.execGo(f, b, x, st, reach)
+		} else {
+			e.note("goroutine started in " + f.fn.Name() + ": runs concurrently, its body is not part of this activation")
+			e.goSite(f, b, x, st, reach)
+		}
 	case *ssa.Call:
 		e.execCall(f, b, x, x.Common(), x, st, reach)
 	case *ssa.MakeInterface:
@@ -271,6 +276,7 @@ func (e *Exec) execInstr(f *Frame, b *ssa.BasicBlock, ins ssa.Instruction, st *S
 		k := e.val(f, x.Key)
 		v := e.val(f, x.Value)
 		mt := unalias(m.T).Underlying().(*types.Map)
+		e.noteKeyTerm(k.Term, e.reg.sortOf(mt.Key()))
 		e.safety("nilmap", Not(Eq(m.Term, "0")), reach, "assignment to entry in nil map")
 		e.frameWriteRef(f, st, reach, m.Term, "map update")
 		e.mapStore(st, mt, m.Term, k.Term, e.asTerm(v))
@@ -548,6 +554,7 @@ func (e *Exec) lookup(f *Frame, x *ssa.Lookup, st *State, reach Term) Val {
 		e.safety("index", And(app(">=", k.Term, "0"), app("<", k.Term, app("str.len", m.Term))), reach, "string index out of range")
 		return Val{T: x.Type(), Term: e.define(name, "Int", app("str.to_code", app("str.at", m.Term, k.Term)))}
 	}
+	e.noteKeyTerm(k.Term, e.reg.sortOf(mt.Key()))
 	has := e.define(name+"_ok", "Bool", e.mapHas(st, mt, m.Term, k.Term))
 	v := Val{T: mt.Elem(), Term: e.define(name, e.reg.sortOf(mt.Elem()), e.mapGet(st, mt, m.Term, k.Term))}
 	e.refBound(st, v)
@@ -574,6 +581,7 @@ func (e *Exec) execNext(f *Frame, x *ssa.Next, st *State, reach Term) {
 	}
 	mt := unalias(ri.x.T).Underlying().(*types.Map)
 	k := Val{T: mt.Key(), Term: e.fresh(name+"_k", e.reg.sortOf(mt.Key()))}
+	e.noteKeyTerm(k.Term, e.reg.sortOf(mt.Key()))
 	vn := e.visitedName(f, rng)
 	vis := e.comp(st, vn, e.compSort[vn])
 	// ok => k in dom, not visited ; !ok => every key in dom was visited (instantiated lazily by contracts: exposed as a quantified fact)
@@ -889,4 +897,48 @@ func joinToks(toks []string) string {
 		b.WriteString(t)
 	}
 	return b.String()
+}
+
+// isForkJoin: the spawned closure signals a sync.WaitGroup (wg.Done), i.e. the spawner waits for it.
+func isForkJoin(g *ssa.Go) bool {
+	fn := g.Common().StaticCallee()
+	if fn == nil {
+		return false
+	}
+	for _, b := range fn.Blocks {
+		for _, ins := range b.Instrs {
+			var cm *ssa.CallCommon
+			switch c := ins.(type) {
+			case *ssa.Call:
+				cm = c.Common()
+			case *ssa.Defer:
+				cm = c.Common()
+			}
+			if cm != nil {
+				if callee := cm.StaticCallee(); callee != nil && callee.String() == "(*sync.WaitGroup).Done" {
+					return true
+				}
+			}
+		}
+	}
+	return false
+}
+
+// goSite: a spawned goroutine is an effect site (`at` clauses can constrain it) but its body does not run here.
+func (e *Exec) goSite(f *Frame, b *ssa.BasicBlock, g *ssa.Go, st *State, reach Term) {
+	c := g.Common()
+	cc := &callCtx{f: f, b: b, st: st, reach: reach, resT: types.NewTuple(), instr: g, common: c}
+	if c.IsInvoke() {
+		cc.args = append(cc.args, e.val(f, c.Value))
+		cc.key = fmt.Sprintf("(%s).%s", types.TypeString(c.Value.Type(), nil), c.Method.Name())
+	} else if fn := c.StaticCallee(); fn != nil {
+		cc.key = fn.String()
+	} else {
+		cc.key = "go:" + c.Value.Name()
+	}
+	for _, a := range c.Args {
+		cc.args = append(cc.args, e.val(f, a))
+	}
+	cc.names = calleeNames(cc.key)
+	e.siteClauses(cc)
 }
